@@ -122,6 +122,12 @@ def run(tier):
                 b2_ = rnd.choice([b[:-3], b + " }", "{ RdV = ; }", "{ ??? }", b.replace(";", " ; ; (", 1)])
                 beh.append((n, [b2_]))
                 brokenb.append(n)
+            elif rnd.random() < 0.12:
+                beh.append((n, [b, rnd.choice(["{ RdV = ; }", "{ ??? }", b[:-3]])]))      # two parts, the LATER one broken
+                brokenb.append(n)
+            elif rnd.random() < 0.06:
+                beh.append((n, ["{ RdV = ; }", b]))          # two parts, the first one broken
+                brokenb.append(n)
             elif rnd.random() < 0.15:
                 beh.append((n, [b, "{ RdV = RsV; }"]))      # two parts
             else:
@@ -160,7 +166,7 @@ def run(tier):
                     "trusted_base": res.assumptions, "print_assumptions": binfo["assumptions"],
                     "theorems": ["pool_sequential", "pool_progress", "failure_isolated", "one_entry_per_task"],
                     "evaluations": sum(len(r["behaviors"]) for r in runs), "distinct_nontrivial": len(runs),
-                    "rule": "random subsets/orderings of corpus behaviours with syntactically broken behaviours and two-part behaviours injected, pool sizes 1-16 (Parser.Pool "
+                    "rule": "random subsets/orderings of corpus behaviours with syntactically broken behaviours, two-part behaviours and two-part behaviours whose first or later part is broken injected, pool sizes 1-16 (Parser.Pool "
                             "rebound in the harness process, fork start method), random per-task delays so that completion order differs from submission order; each pooled "
                             "result compared entry by entry (name, trees, behaviours, exception name, key order) with sequential in-process parsing",
                     "runs": len(runs), "wall_s": wall, "pool_sizes": sorted({r["pool"] for r in runs}),
